@@ -29,9 +29,12 @@ if [ -n "$DEMO" ]; then
 fi
 results=""
 for c in $CHECKS; do
+  # the evidence file of a run against a changed tree is not kept: save and put back the clean-tree one
+  cp /verif/evidence/$c.json /tmp/evidence_keep_$c.json 2>/dev/null
   out=$(cd /verif && timeout 1500 ./check.sh $c quick 2>&1)
+  [ -f /tmp/evidence_keep_$c.json ] && mv /tmp/evidence_keep_$c.json /verif/evidence/$c.json
   v=$(echo "$out" | grep -c "^VIOLATION")
-  first=$(echo "$out" | grep -m1 "what:" | cut -c1-300 | tr '"' "'" | tr '\\' '/')
+  first=$(echo "$out" | grep -m1 "what:" | cut -c1-300 | tr '"' "'" | tr '\\' '/' | tr -c '[:print:]' '?')
   results="$results{\"check\":\"$c\",\"tier\":\"quick\",\"violation_lines\":$v,\"first\":\"$first\"},"
   echo "  $c quick: $v VIOLATION lines; $first"
 done
